@@ -776,6 +776,12 @@ func (f *Frame) guardCheck(ins *ssa.FieldAddr, lv *LValue, st *State) {
 			return
 		}
 		lockAddr := u.fieldAddrTerm(lv.Base, stt.Field(lockIdx).Type(), 1, lockIdx)
+		if _, isIface := stt.Field(lockIdx).Type().Underlying().(*types.Interface); isIface {
+			// a lock held through an interface field (sync.Locker): the identity of the lock is the pointer the interface holds
+			cls := fieldClass(named, []string{g.Lock})
+			arr := u.heapGet(st, cls, ArraySort(SInt, SIface))
+			lockAddr = App("iint", SInt, Select(arr, lv.Base))
+		}
 		h, okh := st.ghost["$held"]
 		if !okh {
 			h = u.ghostInit("$held", ArraySort(SInt, SBool))
